@@ -210,6 +210,9 @@ pub fn render(f: &AFile) -> String {
         } else if l.x.contains_key("noh11") {
             t.push_str("disable_http11 = true\n");
         }
+        if viol == "listener-hsts-without-enabled" && first {
+            t.push_str("hsts = { max_age = 1000 }\n");
+        }
         if viol == "hsts-on-http-listener" && first {
             t.push_str("hsts = { enabled = true, max_age = 1000 }\n");
         }
@@ -288,7 +291,10 @@ pub fn render(f: &AFile) -> String {
                 items.push(format!("tags = {}", tags_toml(tg)));
             }
             if let Some(c) = &fnt.cert {
-                let (cp, kp) = cert_paths(c);
+                let (mut cp, kp) = cert_paths(c);
+                if viol == "garbage-certificate" && firstf {
+                    cp = format!("{ASSETS}/README.md"); // readable, not a PEM certificate
+                }
                 items.push(format!("certificate = {}", q(&cp)));
                 items.push(format!("key = {}", q(&kp)));
                 if fnt.x.contains_key("chain") {
@@ -319,6 +325,24 @@ pub fn render(f: &AFile) -> String {
             if fnt.x.contains_key("hsts") || (viol == "hsts-on-http-frontend" && firstf) {
                 items.push("hsts = { enabled = true, max_age = 31536000 }".into());
             }
+            if viol == "tcp-front-with-path" && firstf {
+                items.push("path = \"/x\"".into());
+            }
+            if viol == "tcp-front-with-certificate" && firstf {
+                items.push(format!("certificate = {}", q(&format!("{ASSETS}/certificate.pem"))));
+            }
+            if viol == "invalid-redirect-scheme" && firstf {
+                items.push("redirect_scheme = \"use-gopher\"".into());
+            }
+            if viol == "invalid-header-key" && firstf {
+                items.push("headers = [{ position = \"request\", key = \"X Bad\", value = \"1\" }]".into());
+            }
+            if viol == "invalid-header-value" && firstf {
+                items.push("headers = [{ position = \"response\", key = \"X-Ok\", value = \"a\\r\\nInjected: 1\" }]".into());
+            }
+            if viol == "hsts-without-enabled" && firstf {
+                items.push("hsts = { max_age = 1000 }".into());
+            }
             if viol == "unknown-frontend-field" && firstf {
                 items.push("no_such_field = 1".into());
             }
@@ -347,6 +371,14 @@ pub fn render(f: &AFile) -> String {
             br.push(format!("  {{ {} }}", items.join(", ")));
         }
         t.push_str(&format!("backends = [\n{}\n]\n", br.join(",\n")));
+        if c.x.keys().any(|k| k.starts_with("udp_")) {
+            t.push_str(&format!("\n[clusters.{}.udp]\n", q(&c.id)));
+            for (k, tk, quoted) in [("udp_aff", "affinity_key", true), ("udp_resp", "responses", false), ("udp_req", "requests", false), ("udp_pp", "send_proxy_protocol", false), ("udp_ppe", "proxy_protocol_every_datagram", false)] {
+                if let Some(v) = c.x.get(k) {
+                    t.push_str(&format!("{tk} = {}\n", if quoted { q(v) } else { v.clone() }));
+                }
+            }
+        }
         if let Some(uri) = c.x.get("hcuri") {
             t.push_str(&format!("\n[clusters.{}.health_check]\nuri = {}\n", q(&c.id), q(uri)));
             if let Some(i) = c.x.get("hcint") {
@@ -354,6 +386,12 @@ pub fn render(f: &AFile) -> String {
             }
             if let Some(i) = c.x.get("hcthr") {
                 t.push_str(&format!("healthy_threshold = {i}\n"));
+            }
+            if let Some(i) = c.x.get("hctmo") {
+                t.push_str(&format!("timeout = {i}\n"));
+            }
+            if let Some(i) = c.x.get("hcunthr") {
+                t.push_str(&format!("unhealthy_threshold = {i}\n"));
             }
         }
     }
